@@ -1602,6 +1602,11 @@ func (d *Data) DeleteData(ctx storage.VersionedCtx, keyStr string) error {
 	if err != nil {
 		return err
 	}
+	// A delete removes the annotation from the in-memory copy and from the store in two steps: serialize it with
+	// updates of annotations (storeAndUpdate), or an interleaved update leaves the two disagreeing.
+	d.updateMu.Lock()
+	defer d.updateMu.Unlock()
+
 	mdb, found := d.getMemDBbyVersion(ctx.VersionID())
 	if found {
 		mdb.mu.Lock()
